@@ -1,0 +1,123 @@
+//! Step-driven access to the ChonkyBFT replica for out-of-crate verification harnesses.
+//!
+//! Compiled only with `--cfg era_consensus_verif`. It adds no behaviour to the crate:
+//! it only re-exposes the crate-private `StateMachine` handlers so that a harness can
+//! start a replica from whatever state the engine has persisted, deliver one message
+//! or fire one timeout at a time, and observe the in-memory state and the outbound messages.
+use std::sync::Arc;
+
+use zksync_concurrency::{ctx, sync};
+use zksync_consensus_roles::validator;
+
+use crate::{
+    create_input_channel, v2_chonky_bft::StateMachine, Config, FromNetworkMessage,
+    ToNetworkMessage,
+};
+
+/// Observable part of the replica state.
+#[derive(Debug, Clone)]
+pub struct Snapshot {
+    /// Current view.
+    pub view_number: validator::ViewNumber,
+    /// Current phase.
+    pub phase: validator::v2::Phase,
+    /// Last commit vote signed.
+    pub high_vote: Option<validator::v2::ReplicaCommit>,
+    /// Highest commit certificate held.
+    pub high_commit_qc: Option<validator::v2::CommitQC>,
+    /// Highest timeout certificate held.
+    pub high_timeout_qc: Option<validator::v2::TimeoutQC>,
+    /// Sizes of commit_views_cache, commit_qcs_cache, timeout_views_cache, timeout_qcs_cache.
+    pub cache_sizes: [usize; 4],
+}
+
+/// A replica driven one step at a time.
+pub struct Replica {
+    sm: StateMachine,
+    outbound: ctx::channel::UnboundedReceiver<ToNetworkMessage>,
+    _inbound: sync::prunable_mpsc::Sender<FromNetworkMessage>,
+    _proposer: sync::watch::Receiver<Option<validator::v2::ProposalJustification>>,
+}
+
+impl Replica {
+    /// Starts a replica from the state persisted in the engine of `cfg`.
+    pub async fn start(ctx: &ctx::Ctx, cfg: Arc<Config>) -> ctx::Result<Self> {
+        let (out_send, out_recv) = ctx::channel::unbounded();
+        let (in_send, in_recv) = create_input_channel();
+        let (proposer_send, proposer_recv) = sync::watch::channel(None);
+        let sm = StateMachine::start(ctx, cfg, out_send, in_recv, proposer_send).await?;
+        Ok(Self {
+            sm,
+            outbound: out_recv,
+            _inbound: in_send,
+            _proposer: proposer_recv,
+        })
+    }
+
+    /// Current in-memory state.
+    pub fn snapshot(&self) -> Snapshot {
+        Snapshot {
+            view_number: self.sm.view_number,
+            phase: self.sm.phase,
+            high_vote: self.sm.high_vote.clone(),
+            high_commit_qc: self.sm.high_commit_qc.clone(),
+            high_timeout_qc: self.sm.high_timeout_qc.clone(),
+            cache_sizes: [
+                self.sm.commit_views_cache.len(),
+                self.sm.commit_qcs_cache.len(),
+                self.sm.timeout_views_cache.len(),
+                self.sm.timeout_qcs_cache.len(),
+            ],
+        }
+    }
+
+    /// Messages sent by the replica since the last call.
+    pub fn drain_outbound(&mut self) -> Vec<validator::Signed<validator::ConsensusMsg>> {
+        let mut out = vec![];
+        while let Some(m) = self.outbound.try_recv() {
+            out.push(m.message);
+        }
+        out
+    }
+
+    /// Delivers a leader proposal.
+    pub async fn on_proposal(
+        &mut self,
+        ctx: &ctx::Ctx,
+        m: validator::Signed<validator::v2::LeaderProposal>,
+    ) -> Result<(), String> {
+        self.sm.on_proposal(ctx, m).await.map_err(|e| format!("{e:#}"))
+    }
+
+    /// Delivers a commit vote.
+    pub async fn on_commit(
+        &mut self,
+        ctx: &ctx::Ctx,
+        m: validator::Signed<validator::v2::ReplicaCommit>,
+    ) -> Result<(), String> {
+        self.sm.on_commit(ctx, m).await.map_err(|e| format!("{e:#}"))
+    }
+
+    /// Delivers a timeout vote.
+    pub async fn on_timeout(
+        &mut self,
+        ctx: &ctx::Ctx,
+        m: validator::Signed<validator::v2::ReplicaTimeout>,
+    ) -> Result<(), String> {
+        self.sm.on_timeout(ctx, m).await.map_err(|e| format!("{e:#}"))
+    }
+
+    /// Delivers a new-view message.
+    pub async fn on_new_view(
+        &mut self,
+        ctx: &ctx::Ctx,
+        m: validator::Signed<validator::v2::ReplicaNewView>,
+    ) -> Result<(), String> {
+        self.sm.on_new_view(ctx, m).await.map_err(|e| format!("{e:#}"))
+    }
+
+    /// Fires the view timer.
+    pub async fn start_timeout(&mut self, ctx: &ctx::Ctx) -> Result<(), String> {
+        self.sm.start_timeout(ctx).await.map_err(|e| format!("{e:#}"))
+    }
+}
